@@ -1,7 +1,7 @@
 """C09 certificate store = gap-free immutable history with derivable power tables.
 Design check of spec/certstore/CertStore.tla (TLC, exhaustive) + trace validation of the real certstore.Store
 against spec/certstore/CertStoreTrace.tla (monitors C09_*)."""
-import os
+import os, re, threading
 import vlib
 from vlib import Inconclusive
 import certstore_lib as L
@@ -25,29 +25,163 @@ def histories(ck, binary, seed, n, steps, name, noacc=5):
     return ev
 
 
+CONC_MUTANTS = {  # named deviations of CertStoreConc.tla: one public call split over two critical sections
+    "MCC09conc_mutAtomicPT.cfg": "GetPowerTable reads the next instance, then (second lock) the cached table",
+    "MCC09conc_mutAtomicPut.cfg": "Put publishes the latest certificate, then (second lock) the cached table",
+    "MCC09conc_mutNotifyAfterStore.cfg": "Put notifies the subscribers before the certificate is stored / published",
+    "MCC09conc_mutAtomicSubscribe.cfg": "Subscribe reads the latest certificate, then (second lock) registers the channel",
+}
+CONC_KINDS = ("Latest", "GetPT", "Get", "GetRange", "SubInit", "SubPoll", "SubRecv", "SubFinal")
+
+
+def parallel(ck, *jobs):
+    """Run independent stages concurrently (each is TLC- or go-bound).  Every stage gets its own vlib.Check (same directory, own
+    coverage / violation lists) which is merged into `ck` afterwards; the first Inconclusive is re-raised after the merge."""
+    subs, errs = [vlib.Check(ck.pid, ck.tier, ck.seed, ck.level) for _ in jobs], []
+
+    def wrap(f, sub):
+        try:
+            f(sub)
+        except BaseException as e:   # noqa: re-raised below
+            errs.append(e)
+
+    ths = [threading.Thread(target=wrap, args=(j, sub)) for j, sub in zip(jobs, subs)]
+    for t in ths:
+        t.start()
+    for t in ths:
+        t.join()
+    for sub in subs:
+        for k, v in sub.cov.items():
+            if isinstance(v, bool):
+                ck.cov[k] = ck.cov.get(k, False) or v
+            elif isinstance(v, (int, float)):
+                ck.cov[k] = ck.cov.get(k, 0) + v
+            elif isinstance(v, list):
+                ck.cov.setdefault(k, []).extend(v)
+            elif isinstance(v, dict):
+                ck.cov.setdefault(k, {}).update(v)
+            elif v:
+                ck.cov[k] = v
+        ck.violations += sub.violations
+        ck.known_hit += sub.known_hit
+        ck.notes += sub.notes
+    for e in errs:
+        if not isinstance(e, Inconclusive):
+            raise e
+    if errs:
+        raise errs[0]
+
+
+def design_conc(ck, quick):
+    """Linearizability obligation of CertStoreLin.tla on the design: satisfiable by reads that are one atomic step
+    (and the driver's bracket [lo, hi] is sound), refuted by each named two-step deviation."""
+    cfg = "MCC09conc.cfg" if quick else "MCC09concthorough.cfg"
+    res = {}
+
+    def main(_):
+        res["main"] = vlib.tlc(L.SPECDIR, "MCCertStoreConc", cfg, workdir=os.path.join(ck.dir, "tlc-conc-design"),
+                               timeout=900 if quick else 3000, workers=4)
+
+    def mutants(_):
+        for m in CONC_MUTANTS:
+            res[m] = vlib.tlc(L.SPECDIR, "MCCertStoreConc", m, workdir=os.path.join(ck.dir, "tlc-" + m[:-4]), timeout=600, workers=1)
+
+    parallel(ck, main, mutants)
+    r = res["main"]
+    ck.require_tlc_ok(cfg, r)
+    ck.add_tlc("design:" + cfg, r, note="1 writer (invocation / effect / response steps, tables change on every certificate, checkpoint crossed), "
+               "2 readers x 2 operations (Latest, Get, GetRange, GetPowerTable around the head, Subscribe, non-blocking receive), all "
+               "interleavings: BracketSound, Linearizable (CertStoreLin!LinOK), WritersNeverBlock, QuiescentSubsSeeLatest")
+    for m, what in CONC_MUTANTS.items():
+        x = res[m]
+        if x.error or x.violated != "Linearizable":
+            raise Inconclusive("non-vacuity: %s (%s) should violate Linearizable, TLC says violated=%s error=%s\n%s"
+                               % (m, what, x.violated, x.error, x.out[-1500:]))
+        ck.cov["configs"].append(dict(config="mutant:" + m, refuted_invariant="Linearizable", counterexample_states=len(x.trace),
+                                      wall_s=round(x.wall, 1), note="named deviation: " + what))
+
+
+def linearizable(ck, binary, seed, name, puts, rounds, race=False):
+    """Writers against reader goroutines and subscribers on the real store behind the gate datastore; every recorded read is
+    judged by TLC against CertStoreLin.tla (answer = the model's answer for some state index in its bracket)."""
+    trace, out = L.drive(ck, binary, "TestCertStoreLinearizable", name,
+                         dict(VERIF_SEED=seed, VERIF_PUTS=puts, VERIF_ROUNDS=rounds, VERIF_READERS=8))
+    if "DATA RACE" in out:
+        i = out.index("DATA RACE")
+        ck.violation("C09_RaceFree", "the race detector reports a data race between writers and concurrent readers/subscribers of certstore.Store",
+                     dict(test="TestCertStoreLinearizable", seed=seed, report=out[max(0, i - 200):i + 3000]))
+        return
+    ev = L.validate(ck, "CertStoreConcTrace", trace, name, timeout=2400)
+    kinds, verdicts, _, small, _ = L.stats(ck, [e for e in ev if e["ev"] != "CPut"] +
+                                           [dict(e, ev="Put") for e in ev if e["ev"] == "CPut"], name)
+    reads = [e for e in ev if e["ev"] == "CRead"]
+    cputs = [e for e in ev if e["ev"] == "CPut"]
+    by = {}
+    for e in reads:
+        d = by.setdefault(e["kind"], dict(total=0, overlapping_a_put=0, quiescent=0))
+        d["total"] += 1
+        d["overlapping_a_put" if e["hi"] > e["lo"] else "quiescent"] += 1
+    modes = {}
+    for e in cputs:
+        modes[e["mode"]] = modes.get(e["mode"], 0) + 1
+    pauses = [tuple(int(x) for x in m.group(1).split("/")) for m in re.finditer(r"mode=gated .*pauses=([\d/]+)", out)]
+    quiet = sum(int(m.group(1)) for m in re.finditer(r" quiet=(\d+) ", out))
+    ck.cov.setdefault("concurrent", {})[name] = dict(
+        reads=by, puts_by_mode=modes, goroutines=len({(e["g"]) for e in reads}), gate_pauses_cert_power_latest_after_readerget=pauses,
+        quiet_windows=quiet, next_table_reads_racing_a_put=sum(1 for e in reads if e["kind"] == "GetPT" and e["hi"] > e["lo"] and e["err"] == ""))
+    for k in CONC_KINDS:
+        L.need(by.get(k, {}).get("total"), "no %s read in %s" % (k, name))
+    L.need(all(modes.get(m, 0) >= 20 for m in ("free", "handoff", "gated")), "not every writer mode ran in %s: %s" % (name, modes))
+    L.need(all(e["err"] == "" and not e["blocked"] and e["lazy"] > 0 for e in cputs), "a Put of the prepared chain was not admitted in " + name)
+    L.need(all(len(e["delta"]) > 0 for e in cputs), "a certificate of %s does not change the power table" % name)
+    L.need(small >= 20, "too few checkpoint crossings (lowered frequency) in " + name)
+    L.need(by["GetPT"]["overlapping_a_put"] >= 200 and by["Latest"]["overlapping_a_put"] >= 100 and by["GetRange"]["overlapping_a_put"] >= 100
+           and by["Get"]["overlapping_a_put"] >= 100, "too few reads overlapping a Put in %s: %s" % (name, by))
+    L.need(by["SubPoll"]["quiescent"] >= 20, "too few receives with no Put in flight in " + name)
+    L.need(pauses and all(min(p) > 0 for p in pauses), "a pause point of the gate was never reached in %s: %s" % (name, pauses))
+    L.need(quiet > 0, "no quiet window in " + name)
+    ck.sample(dict(trace=name, first_reads=reads[:6]))
+    return ev
+
+
 def run(ck):
     quick = ck.tier == "quick"
-    L.design(ck, "MCC09.cfg" if quick else "MCC09thorough.cfg", {"MCC09_mutNoDrain.cfg": "PutNeverBlocks"},
-             timeout=600 if quick else 3000,
-             note="all interleavings of create/open-or-create/open, put (valid, stale, duplicate, gap, before-first, wrong delta, wrong "
-                  "committed table, delta to empty, bottom/invalid chain), subscribe/receive/unsubscribe, wipe, crash between calls, reopen")
-    binary = vlib.build_driver("certstore", ck.dir)
+    box = {}
+
+    def design(ck):
+        L.design(ck, "MCC09.cfg" if quick else "MCC09thorough.cfg", {"MCC09_mutNoDrain.cfg": "PutNeverBlocks"},
+                 timeout=600 if quick else 3000,
+                 note="all interleavings of create/open-or-create/open, put (valid, stale, duplicate, gap, before-first, wrong delta, wrong "
+                      "committed table, delta to empty, bottom/invalid chain), subscribe/receive/unsubscribe, wipe, crash between calls, reopen")
+
+    def build(ck):
+        box["binary"] = vlib.build_driver("certstore", ck.dir)
+
+    parallel(ck, design, lambda c: design_conc(c, quick), build)
+    binary = box["binary"]
     if quick:
-        histories(ck, binary, ck.seed, 50, 70, "seed%d" % ck.seed)
+        parallel(ck, lambda c: histories(c, binary, ck.seed, 50, 70, "seed%d" % ck.seed),
+                 lambda c: linearizable(c, binary, ck.seed, "lin%d" % ck.seed, 64, 1))
     else:
         for i in range(6):
             histories(ck, binary, ck.seed + 1000 * i, 150, 110, "seed%d" % (ck.seed + 1000 * i))
+        for i in range(3):
+            linearizable(ck, binary, ck.seed + 1000 * i, "lin%d" % (ck.seed + 1000 * i), 100, 2)
         long_run(ck, binary)
         concurrent(ck)
     ck.cov["distinct_nontrivial"] = ck.cov["traces_validated_against_impl"]
     ck.cov["rule"] = ("a case = one recorded history of the real certstore.Store (random create/open-or-create/open incl. wrong arguments, "
                       "Put of valid successors with real MakePowerTableDiff deltas over changing tables and of 14 kinds of inadmissible certificates, "
                       "Get/GetRange/GetPowerTable around the window, Latest, subscribe/receive/unsubscribe, crash+reopen, DeleteAll), checkpoint "
-                      "frequency lowered to 1..5 through the accessor or left at 1440 with first instances just below 1440/2880; every event is "
-                      "checked by TLC against CertStoreTrace.tla; histories are distinct by construction (seeded random, never repeated)")
+                      "frequency lowered to 1..5 through the accessor or left at 1440 with first instances just below 1440/2880; or one concurrent "
+                      "episode (1-3 writers putting a chain whose table changes on every certificate, 8 readers + 2 subscribers + 1 subscriber that "
+                      "never reads, gate datastore in free / handoff / gated mode, GOMAXPROCS 1..n) whose every recorded read is judged against "
+                      "CertStoreLin.tla; every event is checked by TLC; histories are distinct by construction (seeded random, never repeated)")
     ck.assumptions += ["the datastore is datastore.MapDatastore (sync-wrapped); no I/O errors other than absence",
                        "instances < 2^31 (TLC integers); power-table CID is collision free (modelled as the table itself)",
-                       "the power-table delta algebra is transcribed from certs.ApplyPowerTableDiffs (decided separately by C04)"]
+                       "the power-table delta algebra is transcribed from certs.ApplyPowerTableDiffs (decided separately by C04)",
+                       "concurrent episodes: sequentially consistent sync/atomic counters (Go memory model) bracket the linearization point; "
+                       "interleavings are provoked (gate datastore, pipelined writers, GOMAXPROCS), not enumerated"]
 
 
 def long_run(ck, binary):
@@ -59,6 +193,7 @@ def long_run(ck, binary):
 
 def concurrent(ck):
     binary = vlib.build_driver("certstore", ck.dir, race=True)
+    linearizable(ck, binary, ck.seed + 77, "linrace", 64, 1, race=True)
     trace, out = L.drive(ck, binary, "TestCertStoreConcurrent", "conc", dict(VERIF_SEED=ck.seed, VERIF_PUTS=400, VERIF_READERS=8))
     if "DATA RACE" in out:
         i = out.index("DATA RACE")
@@ -80,7 +215,7 @@ def replay(ck, obj):
     trace = r.get("trace")
     if not trace or not os.path.exists(trace):
         raise Inconclusive("replay: recorded trace %s is gone; re-run the check with VERIF_SEED=%s" % (trace, obj.get("seed")))
-    L.validate(ck, "CertStoreTrace", trace, "replay")
+    L.validate(ck, "CertStoreConcTrace", trace, "replay")   # a superset of CertStoreTrace (adds the CPut / CRead events)
 
 
 MANIFEST = dict(
@@ -89,10 +224,20 @@ MANIFEST = dict(
           "stored instances immutable, latest pointer monotone, subscriber channel holds the latest unseen certificate, Put never blocks) for all "
           "interleavings of the public API within small bounds (<= 4 certificates, 2-3 tables, checkpoint frequency 2, first instance 0/1, "
           "2 subscribers); the same clauses are evaluated by TLC on every event of recorded histories of the real certstore.Store "
-          "(CertStoreTrace.tla), the model advancing with the same functions; thorough adds a 3000-certificate run across the real 1440/2880 "
-          "checkpoints and one writer against 8 concurrent readers/subscribers under the race detector."),
+          "(CertStoreTrace.tla), the model advancing with the same functions. Concurrent readers and writers: CertStoreLin.tla states the "
+          "linearizability obligation of every read (Latest, Get, GetRange, GetPowerTable(i <= latest+1), subscribe / receive): the answer is the "
+          "store's answer in SOME state between invocation and response; CertStoreConc.tla (1 writer, 2 readers, invocation/effect/response "
+          "steps) shows by TLC that atomic reads satisfy it and that the driver's bracket [lo, hi] is sound, and refutes four named two-step "
+          "deviations; TestCertStoreLinearizable records reads of 8 reader goroutines + subscribers racing 1-3 writers (table changes on every "
+          "certificate, gate datastore pausing Puts at every datastore write, pipelined writers, GOMAXPROCS varied) and TLC judges each read "
+          "against the model (CertStoreConcTrace.tla: C09_ConcPowerTable, C09_ConcLatest, C09_ConcGet, C09_ConcRange, C09_ConcSubscribe, "
+          "C09_ConcRecv, C09_SubscribersEventuallyLatest, C09_WritersNeverBlock). Thorough adds a 3000-certificate run across the real "
+          "1440/2880 checkpoints and the concurrent tests under the race detector."),
     note=("Trusted: TLC, the NDJSON recorder and abstract<->real table codec in harness/drivers/certstore (no verdict in Go), MapDatastore. "
           "Bounded: model constants above; real histories are seeded samples; instances < 2^31. The delta algebra is transcribed, not re-derived. "
-          "Liveness ('eventually observe') is checked as the safety core: whoever has not seen the latest certificate has it waiting in its channel."),
+          "Liveness ('eventually observe') is checked as the safety core: whoever has not seen the latest certificate has it waiting in its channel "
+          "(under concurrency: whenever no Put is in flight, and after the last Put). Concurrent interleavings of the real code are provoked and "
+          "sampled, not enumerated; reads are judged one by one (plus the per-goroutine witness of an earlier Latest/receive), not as a global "
+          "linearization of all operations: Get/GetRange may legitimately see a certificate before Latest does (datastore write precedes the swap)."),
     technique="TLA+ spec model-checked with TLC + trace validation of the real certificate store against the spec",
     design_ref="DESIGN.md section 6 C09")
